@@ -201,18 +201,25 @@ def gcv_scores(y, wt, llas_or_lams, solver=banded_solve, lams=False):
 
 
 def robust_gcv(y, valid, llas, p=None, solver=banded_solve):
-    """Robust GCV model; a weight vector that leaves the system unsolvable makes the case degenerate."""
-    try:
-        return _robust_gcv(y, valid, llas, p, solver)
-    except (np.linalg.LinAlgError, ValueError, ZeroDivisionError):
+    """Single-outcome view of robust_gcv_candidates (degenerate when the algorithm meets a problematic reweighting)."""
+    c = robust_gcv_candidates(y, valid, llas, p, solver)
+    if len(c) != 1 or c[0]["problem_passes"]:
         return {"z": np.zeros(len(y)), "lopt": float("nan"), "margin": 0.0, "degenerate": True, "weights": np.zeros(len(y))}
+    r = dict(c[0])
+    r["degenerate"] = False
+    return r
 
 
-def _robust_gcv(y, valid, llas, p=None, solver=banded_solve):
-    """The anchors' robust algorithm with residual statistics over VALID cells only.
+def robust_gcv_candidates(y, valid, llas, p=None, solver=banded_solve, max_candidates=64):
+    """All outcomes of the robust GCV algorithm that the property admits.
 
-    Returns dict(z, lopt, margin, degenerate) - degenerate when a MAD of 0 was met (then the
-    reweighting is undefined by the property and only the validity predicates apply)."""
+    The algorithm: 4 passes; passes 1-2 sweep the grid, 3-4 re-evaluate at the pass-2 lambda; the running best score and
+    its curve persist across passes; after each pass bisquare weights are derived from the residuals of the VALID cells that
+    still carry weight (scale 1.4826 MAD sqrt(1-h), cut-off 4.685, positive residuals keep weight 1).
+    A reweighting is *problematic* when the MAD is 0 or when it would leave fewer than two weighted valid cells (the next
+    solve would be singular). The property does not say what an implementation falls back to then, so both obvious policies
+    are followed: keep the previous weights, or reset them to 1. Every leaf is an admissible result.
+    Returns a list of dicts(z, lopt, weights, margin, problem_passes)."""
     y = np.asarray(y, dtype=float)
     valid = np.asarray(valid, dtype=bool)
     m = y.size
@@ -220,53 +227,69 @@ def _robust_gcv(y, valid, llas, p=None, solver=banded_solve):
     n = w.sum()
     yy = np.where(valid, y, 0.0)
     e = gcv_eigs(m)
-    rw = np.ones(m)
-    best = (1e15, 0.0)
-    ybest = None
-    hist = []
-    margin = np.inf
-    degenerate = False
-    for it in range(4):
+    out = []
+
+    def rec(it, rw, best, ybest, hist, margin, problems):
+        if len(out) >= max_candidates:
+            return
+        if it == 4:
+            lopt = hist[1][1]
+            fw = w * rw
+            try:
+                if p is None:
+                    z = solver(yy, lopt, fw)
+                    mg = np.inf
+                else:
+                    z, _, mg = irls(yy, valid, lopt, p, solver=solver, base_w=fw)
+            except (np.linalg.LinAlgError, ValueError):
+                return
+            out.append({"z": z, "lopt": lopt, "weights": fw, "margin": min(margin, mg), "problem_passes": problems,
+                        "best_score": min(h[0] for h in hist)})
+            return
         grid = 10.0 ** np.asarray(llas) if it <= 1 else np.array([hist[1][1]])
         wt = w * rw
-        for s in grid:
-            z = solver(yy, s, wt)
-            trH = (wt / (wt + s * e ** 2)).sum()
-            score = np.sum(wt * (yy - z) ** 2) / (wt.sum() * (1 - trH / wt.sum()) ** 2)
-            if score < best[0]:
-                best = (score, s)
-                ybest = z
-        s = best[1]
+        try:
+            for s in grid:
+                z = solver(yy, s, wt)
+                trH = (wt / (wt + s * e ** 2)).sum()
+                score = np.sum(wt * (yy - z) ** 2) / (wt.sum() * (1 - trH / wt.sum()) ** 2)
+                if score < best[0]:
+                    if best[0] < 1e15:
+                        margin = min(margin, abs(best[0] - score) / max(abs(score), 1e-300))
+                    best = (score, s)
+                    ybest = z
+                elif np.isfinite(score) and score != best[0]:
+                    margin = min(margin, abs(score - best[0]) / max(abs(best[0]), 1e-300))
+        except (np.linalg.LinAlgError, ValueError):
+            return
         if ybest is None:
-            degenerate = True
-            hist.append(best)
-            continue
+            return
+        s = best[1]
         trH = (wt / (wt + s * e ** 2)).sum()
         r = np.where(valid, yy - ybest, 0.0)
         sel = valid & (rw != 0)
         mad = np.median(np.abs(r[sel] - np.median(r[sel]))) if sel.any() else 0.0
-        if mad > 0:
+        newrw = None
+        if mad > 0 and 1 - trH / n > 0:
             u = r / (1.4826 * mad * np.sqrt(1 - trH / n))
             margin = min(margin, float(np.min(np.abs(np.abs(u[valid] / 4.685) - 1))))
-            pos = r[valid]
-            if (pos != 0).any():
-                margin = min(margin, float(np.min(np.abs(pos[pos != 0]))))
-            rw = (1 - (u / 4.685) ** 2) ** 2
-            rw[np.abs(u / 4.685) > 1] = 0
-            rw[r > 0] = 1
-            if ((w * rw) > 0).sum() < 3:
-                degenerate = True  # (nearly) unsolvable weighting: outside the equality oracle
+            nz = r[valid]
+            if (nz != 0).any():
+                margin = min(margin, float(np.min(np.abs(nz[nz != 0]))))
+            newrw = (1 - (u / 4.685) ** 2) ** 2
+            newrw[np.abs(u / 4.685) > 1] = 0
+            newrw[r > 0] = 1
+            if ((w * newrw) > 0).sum() < 2:
+                newrw = None
+        if newrw is not None:
+            rec(it + 1, newrw, best, ybest, hist + [best], margin, problems)
         else:
-            degenerate = True
-        hist.append(best)
-    lopt = hist[1][1]
-    fw = w * rw
-    if p is None:
-        z = solver(yy, lopt, fw)
-        mg = np.inf
-    else:
-        z, _, mg = irls(yy, valid, lopt, p, solver=solver, base_w=fw)
-    return {"z": z, "lopt": lopt, "margin": min(margin, mg), "degenerate": degenerate, "weights": fw}
+            rec(it + 1, rw, best, ybest, hist + [best], margin, problems + [it])
+            if not np.array_equal(rw, np.ones(m)):
+                rec(it + 1, np.ones(m), best, ybest, hist + [best], margin, problems + [it])
+
+    rec(0, np.ones(m), (1e15, 0.0), None, [], np.inf, [])
+    return out
 
 
 def robust_lambda_candidates(y, valid, llas):
